@@ -293,6 +293,9 @@ def make_style_machine(ctx):
             if "bg_image" in spec:
                 # file names are unique within a history (the library refuses a second image of the same name)
                 spec["bg_image"][0] = f"img_{len(self.ex.log)}_{spec['bg_image'][0]}"
+                if data.draw(st.integers(0, 3)) == 0:
+                    # a file name that itself contains the document suffix, or a dot-heavy one
+                    spec["bg_image"][0] = data.draw(st.sampled_from(["budget.numbers-", "x.numbers.", "a.b.c-"])) + spec["bg_image"][0]
             self.step("add_style", spec=spec)
 
         @rule(data=st.data(), by_name=st.booleans())
@@ -725,6 +728,8 @@ ADJACENT_PAIRS = [
     # float32-exact values: "1.0" + "6250.5" == "1.0625" + "0.5"
     ({"right_indent": 1.0, "text_inset": 6250.5}, {"right_indent": 1.0625, "text_inset": 0.5}),
     ({"first_indent": 2.5, "left_indent": 6250.5}, {"first_indent": 2.5625, "left_indent": 0.5}),
+    # an image file whose name contains the document suffix
+    ({"bg_color": None, "bg_image": ["budget.numbers-cat.png", "89504e470d0a1a0a0a0b0c"]}, {"bg_color": None, "bg_image": ["plain.png", "89504e470d0a1a0a0d0e0f"]}),
     # the same picture under two file names: two images of the document
     ({"bg_color": None, "bg_image": ["one.png", "89504e470d0a1a0a0102030405"]}, {"bg_color": None, "bg_image": ["two.png", "89504e470d0a1a0a0102030405"]}),
 ]
